@@ -2,6 +2,7 @@ package main
 
 import (
 	"bytes"
+	"compress/gzip"
 	"context"
 	"errors"
 	"fmt"
@@ -409,6 +410,8 @@ func streamConc(c *Ctx) {
 	requestIsolationProbes(c)
 	codecMemoryProbe(c)
 	sharedEndErrorProbe(c)
+	sharedContextErrorProbe(c)
+	negotiationPerCallProbe(c)
 	c.Note("%d goroutines x %d calls over %d client configurations; %d buffer-pool and %d codec-pool events recorded", G, K, len(sets), len(events), len(cevents))
 }
 
@@ -536,6 +539,151 @@ func sharedEndErrorProbe(c *Ctx) {
 		})
 		if got != "distinct" {
 			c.Fail("conc-shared-end-error", desc, got, "an error handed to one call must not be shared with another: Meta() writes into it")
+		}
+	}
+}
+
+// sharedContextErrorProbe: … and likewise the error of a call whose context had ended: two calls,
+// two values (round 9, C13-ml).
+func sharedContextErrorProbe(c *Ctx) {
+	h := connect.NewUnaryHandler("/s/m", func(ctx context.Context, r *connect.Request[[]byte]) (*connect.Response[[]byte], error) {
+		return connect.NewResponse(&[]byte{1}), nil
+	}, connect.WithCodec(rawCodec{"raw"}))
+	for _, proto := range []string{"connect", "grpc", "grpcweb"} {
+		for _, how := range []string{"cancelled", "expired"} {
+			for _, kind := range []string{"unary", "bidi"} {
+				desc := fmt.Sprintf("%s: two %s calls made with a context that is already over (%s)", proto, kind, how)
+				c.Count("shared-context-error-probe")
+				got := safely(func() string {
+					fail := func() *connect.Error {
+						ctx, cancel := context.WithCancel(context.Background())
+						if how == "expired" {
+							ctx, cancel = context.WithDeadline(context.Background(), time.Now().Add(-time.Second))
+						}
+						cancel()
+						cl := connect.NewClient[[]byte, []byte](&inprocClient{h: h}, "http://h/s/m", protoOpts(proto)...)
+						var err error
+						if kind == "unary" {
+							_, err = cl.CallUnary(ctx, connect.NewRequest(&[]byte{1}))
+						} else {
+							st := cl.CallBidiStream(ctx)
+							err = st.Send(&[]byte{1})
+							if err == nil {
+								_, err = st.Receive()
+							}
+							_ = st.CloseRequest()
+							_ = st.CloseResponse()
+						}
+						var ce *connect.Error
+						if !errors.As(err, &ce) {
+							return nil
+						}
+						return ce
+					}
+					e1 := fail()
+					if e1 != nil {
+						e1.Meta().Set("X-Seen-By", "call-1")
+					}
+					e2 := fail()
+					if e1 == nil || e2 == nil {
+						return "no coded error"
+					}
+					if e1 == e2 {
+						return "both calls failed with the very same *connect.Error value"
+					}
+					if v := e2.Meta().Get("X-Seen-By"); v != "" {
+						return "metadata set on the first call's error shows on the second call's: " + v
+					}
+					return "distinct"
+				})
+				if got != "distinct" {
+					c.Fail("conc-shared-context-error", desc, got, "an error handed to one call must not be shared with another: Meta() writes into it")
+				}
+			}
+		}
+	}
+}
+
+// negotiationPerCallProbe: what a handler answers one call with does not depend on the calls it
+// served before. Two requests with the same accept list, one compressed and one not, get the
+// response encodings they would get alone - in either order, and under concurrency (round 9, C13-mk).
+func negotiationPerCallProbe(c *Ctx) {
+	for _, proto := range []string{"connect", "grpc", "grpcweb"} {
+		mk := func() http.Handler {
+			return connect.NewUnaryHandler("/s/m", func(ctx context.Context, r *connect.Request[[]byte]) (*connect.Response[[]byte], error) {
+				out := bytes.Repeat([]byte{7}, 64)
+				return connect.NewResponse(&out), nil
+			}, connect.WithCodec(rawCodec{"raw"}), connect.WithCompression("rle", newRLEDecompressor, newRLECompressor), connect.WithCompressMinBytes(1))
+		}
+		encH, accH := encHeaderFor(proto, "unary")
+		call := func(h http.Handler, compressed bool) string {
+			payload := bytes.Repeat([]byte{5}, 40)
+			var body []byte
+			if compressed {
+				var buf bytes.Buffer
+				zw := gzip.NewWriter(&buf)
+				_, _ = zw.Write(payload)
+				_ = zw.Close()
+				payload = buf.Bytes()
+			}
+			body = payload
+			if proto != "connect" {
+				fl := byte(0)
+				if compressed {
+					fl = 1
+				}
+				body = frame(fl, payload)
+			}
+			req := httptest.NewRequest(http.MethodPost, "/s/m", bytes.NewReader(body))
+			req.ProtoMajor, req.ProtoMinor, req.Proto = 2, 0, "HTTP/2.0"
+			req.Header.Set("Content-Type", ctFor(proto, "unary", "raw"))
+			req.Header.Set(accH, "rle, gzip")
+			if compressed {
+				req.Header.Set(encH, "gzip")
+			}
+			rec := httptest.NewRecorder()
+			h.ServeHTTP(rec, req)
+			return rec.Result().Header.Get(encH)
+		}
+		// alone
+		soloPlain, soloGz := call(mk(), false), call(mk(), true)
+		for _, order := range []string{"plain-first", "compressed-first", "concurrent"} {
+			h := mk()
+			var gotPlain, gotGz string
+			switch order {
+			case "plain-first":
+				gotPlain = call(h, false)
+				gotGz = call(h, true)
+			case "compressed-first":
+				gotGz = call(h, true)
+				gotPlain = call(h, false)
+			default:
+				var wg sync.WaitGroup
+				var mu sync.Mutex
+				for i := 0; i < 16; i++ {
+					i := i
+					wg.Add(1)
+					go func() {
+						defer wg.Done()
+						r := call(h, i%2 == 0)
+						mu.Lock()
+						if i%2 == 0 {
+							if gotGz == "" || r != soloGz {
+								gotGz = r
+							}
+						} else if gotPlain == "" || r != soloPlain {
+							gotPlain = r
+						}
+						mu.Unlock()
+					}()
+				}
+				wg.Wait()
+			}
+			c.Count("negotiation-per-call")
+			if gotPlain != soloPlain || gotGz != soloGz {
+				c.Fail("conc-negotiation-depends-on-history", fmt.Sprintf("%s handler with gzip and rle; two unary requests accepting \"rle, gzip\", one sent gzip-compressed and one uncompressed, %s", proto, order),
+					fmt.Sprintf("uncompressed request answered in %q (alone: %q), compressed request answered in %q (alone: %q)", gotPlain, soloPlain, gotGz, soloGz), "each call's response encoding is what the same call gets alone")
+			}
 		}
 	}
 }
